@@ -25,6 +25,7 @@ def dumpPos (tb frac deno time : Nat) : Nat × Nat × Nat :=
   let bb0 := tb * 4 / deno
   let bb := if bb0 = 0 then tb else bb0
   let base := time / bb
-  (base / frac + 1, base % frac + 1, time % bb)
+  let fr := if frac = 0 then 1 else frac      -- a numerator of 0 counts one beat per measure
+  (base / fr + 1, base % fr + 1, time % bb)
 
 end Sakura
